@@ -167,6 +167,7 @@ def _real_asyncio(opts: dict, steps: list, apps: dict) -> Any:
         return res
 
     loop = asyncio.new_event_loop()
+    loop.set_exception_handler(lambda _l, _c: None)  # CPython 3.12.1's stream callback logs cancelled handler tasks
     try:
         cl, closed = loop.run_until_complete(asyncio.wait_for(main(), 20))
     finally:
